@@ -65,7 +65,7 @@ def descriptor_samples(d, rng):
         if d[1] == 'language': return ['en', 'en-US', 'x-klingon', 'sr-Latn-RS', 'DE'], None
         if d[1] in ('integer', 'nonNegativeInteger', 'positiveInteger'): return ['1', '42', '007'], None
         if d[1] in ('double', 'decimal'): return ['1.5', '0', '3'], None
-        if d[1] == 'anyURI': return ['http://example.org/a?b=c&d', '../x y'], None
+        if d[1] == 'anyURI': return ['http://example.org/a?b=c&d', '../x y', 'Pictures/Gr\u00fc\u00dfe.png', '#\u00a7 3|outline', 'http://\u4f8b.jp/%41'], None
         if d[1] == 'duration': return ['PT1S', 'P1DT2H'], None
         if d[1] in ('date',): return ['2000-01-01'], None
         if d[1] in ('dateTime',): return ['2000-01-01T00:00:00'], None
@@ -94,6 +94,7 @@ def valid_by_descriptor(d, v):
     if t == 'value': return v == d[1]
     if t == 'data':
         if d[2] is None and d[1] in ('NCName', 'ID', 'IDREF'): return True if is_ncname(v) else None
+        if d[2] is None and d[1] == 'anyURI': return True          # XML Schema: no string is excluded from the lexical space of anyURI in practice
         if d[2] is None and d[1] == 'language': return True if re.fullmatch(r'[a-zA-Z]{1,8}(-[a-zA-Z0-9]{1,8})*', v) else None      # XML Schema part 2, 3.3.3
         if d[2] is None and d[1] == 'QName': return True if re.fullmatch(r'([A-Za-z_][\w.\-]*:)?[A-Za-z_][\w.\-]*', v) else None
         if d[2] is not None:
